@@ -100,13 +100,11 @@ func NewMultiWriteSyncer(ws ...WriteSyncer) WriteSyncer {
 // all of them.
 func (ws multiWriteSyncer) Write(p []byte) (int, error) {
 	var writeErr error
-	nWritten := 0
+	nWritten := len(p)
 	for _, w := range ws {
 		n, err := w.Write(p)
 		writeErr = multierr.Append(writeErr, err)
-		if nWritten == 0 && n != 0 {
-			nWritten = n
-		} else if n < nWritten {
+		if n < nWritten {
 			nWritten = n
 		}
 	}
